@@ -26,6 +26,7 @@ def sample_cases(obs, n=4, pred=lambda o: True):
 def lang_product(tier):
     """the C01 product exploration (shared by C01 and C04): cached per repo tree, harness and spec"""
     cases = L.family_cases(tier, L.TIERS_PRODUCT[tier])
+    cases += L.tree_cases(tier, len(cases) + 1)
     obs_path = L.observe(cases, "dfa", "lang-" + tier)
     cpath = obs_path + ".product-%s.json" % C.module_hash("LangCheck", "LangCheck_C01.cfg")
     if os.path.exists(cpath):
@@ -279,6 +280,7 @@ def check_C06(tier):
     t0 = time.time()
     cases = L.family_cases(tier, L.TIERS_OBS[tier])
     cases += L.nest_cases(tier, len(cases) + 1)
+    cases += L.tree_cases(tier, len(cases) + 1)
     obs_path = L.observe(cases, "tok,rules", "obs-" + tier)
     obs = L.read_ndjson(obs_path)
     by_id = {o["id"]: o for o in obs}
@@ -507,6 +509,7 @@ def check_C07(tier):
     t0 = time.time()
     fams = [("core", 5), ("mini", 6), ("flags", 6)] if tier == "quick" else [("core", 6), ("mini", 7), ("case", 4), ("flags", 6)]
     base = L.family_cases(tier, fams)
+    base += L.tree_cases(tier, len(base) + 1)
     fam_of = {tuple(c["e"]): c["fam"] for c in base}
     with_branch = [c for c in base if 123 in c["e"] or 60 in c["e"]]
     # of the flags family only expressions that have a flag as well as a branch (quick: a seeded half)
@@ -652,6 +655,7 @@ def check_C07(tier):
 def check_C08(tier):
     t0 = time.time()
     cases = L.family_cases(tier)
+    cases += L.tree_cases(tier, len(cases) + 1)
     obs_path = L.observe(cases, "dfa,part", "part-" + tier)
     obs = L.read_ndjson(obs_path)
     by_id = {o["id"]: o for o in obs}
